@@ -249,7 +249,7 @@ func explore(p *Program, opts RunOpts) (*RunResult, error) {
 		opts.Workers = 16
 	}
 	if opts.Unwind <= 0 {
-		opts.Unwind = 64
+		opts.Unwind = 5000
 	}
 	if opts.MaxSteps <= 0 {
 		opts.MaxSteps = 2000000
@@ -390,7 +390,7 @@ func replayInterp(p *Program, opts RunOpts, decisions []Dec, model map[string]ui
 	}
 	defer sol.Close()
 	if opts.Unwind <= 0 {
-		opts.Unwind = 64
+		opts.Unwind = 5000
 	}
 	if opts.MaxSteps <= 0 {
 		opts.MaxSteps = 2000000
